@@ -257,6 +257,12 @@ def observe_contour(vc, case, want_pref=True, want_resort=True):
     alpha = float(case["alpha"])
     limits = None if case["limits"] is None else [tuple(x) for x in case["limits"]]
     deltas = case["deltas"]
+    if case.get("np_int"):   # integer limits / cell sizes given as numpy integers instead of python ints
+        limits = [tuple(np.int64(v) if isinstance(v, int) else v for v in t) for t in limits]
+        if isinstance(deltas, list):
+            deltas = [np.int64(v) if isinstance(v, int) else v for v in deltas]
+        elif isinstance(deltas, int):
+            deltas = np.int64(deltas)
     HDC = vc.HighestDensityContour
     orig = HDC.__dict__["cumsum_biggest_until"]
     inner = orig.__func__
@@ -515,6 +521,8 @@ def case_key(case):
              f"deltas={case['deltas']} params={_params_digest(case['model'])}")
         if any(d.get("closure") for d in case["model"]):
             k += " dep=closures"
+        if case.get("np_int"):
+            k += " ints=np.int64"
         if case.get("prelude"):
             k += " evaluated-after=" + ";".join(_params_digest(c["model"]) for c in case["prelude"])
         return k
@@ -853,4 +861,53 @@ def decimal_delta_cases(vc, rng, cfgs, n):
     for al in ("0.1", "0.05"):
         out.append(dict(kind="hdc", model=iid, alpha=al, limits=[[0.0, 16.0], [0.0, 16.0]], deltas=0.125,
                         cfg=dict(fix, cond1="none", grid="ties"), np_seed=None))
+    return out
+
+
+def integer_grid_cases(vc, rng, cfgs, n):
+    """Integer-typed grids: limits as python ints (or np.int64), cell sizes as python int, list
+    of ints, or int on some axes and float on others; 2-D and 3-D.  np.arange then yields an
+    integer axis.  Everything is judged against the harness's float reference (centres and
+    cell sizes converted to float, borders x -+ d/2)."""
+    pool = [c for c in cfgs if c["grid"] == "fit" and c["deltas"] == "list" and c["limits"] == "explicit"
+            and c["aniso"] == "1"]
+    pool = [pool[i] for i in rng.permutation(len(pool))]
+    out = []
+    for k, cfg in enumerate(pool[:n]):
+        c = make_contour_case(vc, rng, cfg, (12, 60), (8, 20))
+        ndim = len(c["limits"])
+        lims, dls = [], []
+        for i, ((lo, hi), d) in enumerate(zip(c["limits"], c["deltas"])):
+            ilo, ihi = int(math.floor(lo)), int(math.ceil(hi))
+            w = ihi - ilo
+            if w < 8:     # too narrow for integer cells: a float axis (mixed int / float grid)
+                lims.append([lo, hi])
+                dls.append(d)
+                continue
+            step = max(1, int(round(d))) if w >= 12 else 1
+            while w // step < 6 and step > 1:
+                step -= 1
+            if k % 3 == 2 and i == ndim - 1:   # integer limits, float cell size on the last axis
+                lims.append([ilo, ihi])
+                dls.append([0.5, 0.25, 1.5][k % 3] if w / 0.25 < 400 else float(step))
+            else:
+                lims.append([ilo, ihi])
+                dls.append(step)
+        mode = k % 4
+        case = dict(c, limits=lims, cfg=dict(cfg, grid="integer"))
+        if mode == 1 and all(isinstance(v, int) for v in dls) and len(set(dls)) == 1:
+            case["deltas"] = dls[0]                     # scalar python int
+        else:
+            case["deltas"] = dls
+        if mode == 3:
+            case["np_int"] = True
+        out.append(case)
+    # the sea state of the seed's demo on a unit grid, scalar and list / mixed cell sizes
+    dnv = [dict(family="Weibull", cond=None, params=dict(alpha=2.776, beta=1.471, gamma=0.8888)),
+           dict(family="LogNormal", cond=0, fixed={}, dep=dict(mu=["pow", 0.1, 1.489, 0.1901],
+                                                               sigma=["exp", 0.04, 0.1748, 0.2243]))]
+    fix = dict(dim=2, cond1="zero", cond2="none", deltas="list", limits="explicit", aniso="1", grid="integer",
+               alpha="mid")
+    for al, dl in (("0.05", 1), ("0.1", [1, 1]), ("0.01", [1, 0.5]), ("0.2", [0.25, 1])):
+        out.append(dict(kind="hdc", model=dnv, alpha=al, limits=[[0, 20], [0, 18]], deltas=dl, cfg=fix, np_seed=None))
     return out
